@@ -1,6 +1,7 @@
 (* Props_C01.v — C01: delivered and stored blocks always match the requested CID. process_message part: Incoming_proofs (every accepted block is keyed by the CID rebuilt from prefix + table answer); client part: Client_proofs2.
    Statements restated verbatim from the proof files and closed by `exact`; nothing else is proved here. *)
 From BS Require Import Bytes Cid Prefix Hasher Proto Incoming Incoming_proofs Types Wantlist Client Client_proofs Client_proofs2.
+From BS Require Import Tie_node.   (* tie lemmas: a source edit that changes what they extract breaks this file's closure *)
 Open Scope N_scope.
 
 Theorem C01_accepted_blocks_rebuilt S H m inc cm c d :
